@@ -162,14 +162,18 @@ func (b *backend) List(ctx context.Context, r *proto.RangeRequest) (resp *proto.
 		klog.ErrorS(err, "backend range err", "key", string(r.GetKey()), "end", string(r.GetEnd()), "revision", r.GetRevision())
 		return nil, err
 	}
-	resp = &proto.RangeResponse{
-		Header: responseHeader(curRevision),
-	}
-
+	resp = &proto.RangeResponse{}
 	if limit > 0 && len(kvs) > int(r.Limit) {
 		resp.More = true
 		kvs = kvs[0:r.Limit]
 	}
+	// a read at a given revision can run ahead of the committed revision, the header must cover what it returns
+	for _, kv := range kvs {
+		if kv.Revision > curRevision {
+			curRevision = kv.Revision
+		}
+	}
+	resp.Header = responseHeader(curRevision)
 	resp.Kvs = kvs
 	return resp, nil
 }
